@@ -387,7 +387,9 @@ func runC02(c *mon.Ctx) {
 				sigs = ref.O()
 				obj.Set("signatures", sigs)
 			}
-			foreign = gen.Pick(r, []*ref.Value{ref.O("ed25519:1", ref.S("c2ln==")), ref.O("ed25519:1", ref.S("not base64!")), ref.O("ed25519:1", ref.I(123)), ref.O("rsa:1", ref.O()), ref.O()})
+			foreign = gen.Pick(r, []*ref.Value{ref.O("ed25519:1", ref.S("c2ln==")), ref.O("ed25519:1", ref.S("not base64!")), ref.O("ed25519:1", ref.I(123)), ref.O("rsa:1", ref.O()), ref.O(),
+				// ... or no map of signatures at all
+				ref.S("not a map"), ref.I(5), ref.A(ref.S("ed25519:1")), ref.B(true), ref.NullV()})
 			sigs.Set("foreign.example", foreign)
 		}
 		nsign := r.Range(1, 3)
